@@ -194,6 +194,18 @@ def apply(toks, au, opts):
             operand = toks[z + 8:e]
             au.note("R", "Instant::now() <= X -> Instant::now().vx_le(&X)")
             toks[z + 6:e] = [Tok("p", ".", ""), Tok("id", "vx_le", ""), Tok("p", "(", ""), Tok("p", "&", "")] + [_w(x, "" if q == 0 else x.ws) for q, x in enumerate(operand)] + [Tok("p", ")", "")]
+    # NAME > X   ->  NAME.vx_gt(&X)     (comparison operator on a shimmed Duration; recipe opt cmpgt=NAME)
+    for nm in filter(None, opts.get("cmpgt", "").split(",")):
+        while True:
+            z = find_seq(toks, [nm, ">"])
+            if z < 0 or is_p(toks[z + 2], "="):
+                break
+            e = z + 2
+            while e < len(toks) and (toks[e].kind == "id" or is_p(toks[e], ".")):
+                e += 1
+            operand = toks[z + 2:e]
+            au.note("R", f"{nm} > X -> {nm}.vx_gt(&X)")
+            toks[z + 1:e] = [Tok("p", ".", ""), Tok("id", "vx_gt", ""), Tok("p", "(", ""), Tok("p", "&", "")] + [_w(x, "" if q == 0 else x.ws) for q, x in enumerate(operand)] + [Tok("p", ")", "")]
     # X.clone() on a (String, u16) pair named by the recipe:  pairclone=destination  ->  vx_clone_pair(&destination)
     for nm in filter(None, opts.get("pairclone", "").split(",")):
         while True:
